@@ -47,7 +47,8 @@ int main(int argc, char** argv)
     int threads = 16;
     double deadline_s = 0;
     long replay_param = 0;
-    bool replay = false;
+    bool replay = false, placement = false;
+    std::vector<std::string> props;
     for (int i = 1; i < argc; ++i)
     {
         std::string a = argv[i];
@@ -80,6 +81,10 @@ int main(int argc, char** argv)
             only = split(next(), ',');
         else if (a == "--replay")
             replay = true;
+        else if (a == "--placement")
+            placement = true;
+        else if (a == "--props")
+            props = split(next(), ',');
         else if (a == "--op")
             replay_op = next();
         else if (a == "--type")
@@ -193,7 +198,11 @@ int main(int argc, char** argv)
     }
 
     std::set<std::string> oo(only.begin(), only.end());
-    build_plan(E, prop, T, oo);
+    if (placement)
+        for (auto& p : props)
+            build_plan(E, p, T, oo, true);
+    else
+        build_plan(E, prop, T, oo);
     if (E.groups.empty())
     {
         fprintf(stderr, "no operations registered for %s\n", prop.c_str());
